@@ -259,6 +259,9 @@ func auditEvaluate(c *vlib.Ctx, cs caseSpec, rec auditRecord, accs []access, ver
 	if cs.State != "" {
 		out += "[root " + cs.State + "]"
 	}
+	if cs.Spell != "" {
+		out += "[root spelled " + cs.Spell + "]"
+	}
 	if rec.Escaping {
 		out += "/escaping"
 	} else {
@@ -288,7 +291,7 @@ func auditEvaluate(c *vlib.Ctx, cs caseSpec, rec auditRecord, accs []access, ver
 	c.Add(0, 1, 1)
 	c.ExtraAdd("audited_path_syscalls", int64(len(accs))) // varies slightly from run to run (temp-name collisions, runtime)
 	if rec.Escaping {
-		c.Nontrivial(fmt.Sprintf("audit|%s|%s|%v|%s|%s%s", cs.Comp, cs.Op, cs.Chain, cs.State, cs.Prefix, cs.Rel))
+		c.Nontrivial(fmt.Sprintf("audit|%s|%s|%v|%s|%s|%s%s", cs.Comp, cs.Op, cs.Chain, cs.State, cs.Spell, cs.Prefix, cs.Rel))
 	}
 }
 
@@ -298,7 +301,7 @@ func auditSpecs(c *vlib.Ctx) []caseSpec {
 	unp := [][]string{{"st", "tmp", unpackRoot}, {"a", unpackRoot, "st", "tmp", unpackRoot}}
 	sets := []rootSet{
 		{"fstree", []string{"Put", "Get", "Delete", "Query"}, chains, nil},
-		{"dirstruct", []string{"EnsureAbsPath", "EnsureRelPath", "EnsureRelDir"}, chains, nil},
+		{"dirstruct", []string{"EnsureAbsPath", "EnsureRelPath", "EnsureRelDir", "Child.EnsureRelPath"}, chains, nil},
 		{"unpack", []string{"UnpackArchive"}, unp, nil},
 		{"scan", []string{"ScanStorage"}, chains, nil},
 	}
@@ -342,6 +345,30 @@ func auditSpecs(c *vlib.Ctx) []caseSpec {
 						}
 						for _, op := range rs.ops {
 							specs = append(specs, caseSpec{Comp: rs.comp, Op: op, Chain: chain, Prefix: pf, Rel: r, Cwd: "parent", State: state})
+						}
+					}
+				}
+			}
+		}
+	}
+	// root spellings (see spellings): single segments (quick), up to 2 segments for DirStructure (thorough)
+	for _, rs := range sets {
+		if only != "" && only != rs.comp {
+			continue
+		}
+		for _, sp := range spellings {
+			for _, chain := range rs.chains {
+				k := 1
+				if rs.comp == "dirstruct" && !c.Quick() {
+					k = 2
+				}
+				for _, r := range rels(chain[len(chain)-1], k) {
+					for _, pf := range prefixes {
+						if rs.comp == "scan" && pf == prefNone {
+							continue
+						}
+						for _, op := range rs.ops {
+							specs = append(specs, caseSpec{Comp: rs.comp, Op: op, Chain: chain, Prefix: pf, Rel: r, Cwd: "parent", Spell: sp})
 						}
 					}
 				}
@@ -429,8 +456,12 @@ func replayAudit(c *vlib.Ctx, cs caseSpec, work string) {
 }
 
 func stateNote(cs caseSpec) string {
-	if cs.State == "" {
-		return ""
+	n := ""
+	if cs.State != "" {
+		n += " root-state=" + cs.State
 	}
-	return " root-state=" + cs.State
+	if cs.Spell != "" {
+		n += " root-spelling=" + cs.Spell
+	}
+	return n
 }
